@@ -1,6 +1,7 @@
 (* GroupingP.v — specification and proofs for Model/Grouping.v (C16). *)
 From Mokaverif Require Import Model.Base Model.Grouping.
 From Coq Require Import Lia Permutation.
+Open Scope nat_scope.
 
 Section GroupingProofs.
 Variable P : Type.
@@ -367,6 +368,230 @@ Proof.
         intros n S1 Hin1 Hp0n. apply Hg in Hin1. destruct Hin1 as [[En E1]|Hin1].
         -- subst S1. assumption.
         -- apply (Hcl n S1); [apply HinG'; left; assumption|assumption].
+Qed.
+
+Lemma perm_key_notin : forall proc g m S g0, core proc g -> Permutation g ((m, S) :: g0) ->
+  forall S0, ~ In (m, S0) g0.
+Proof.
+  intros proc g m S g0 Hc Hperm S0 Hin.
+  assert (Hhd : NoDup (map keyhd ((m, S) :: g0))).
+  { eapply Permutation_NoDup; [|apply (c_heads _ _ Hc)]. apply Permutation_map. exact Hperm. }
+  simpl in Hhd. inversion Hhd as [|? ? Hn _]; subst. apply Hn.
+  change (keyhd (m, S)) with (keyhd (m, S0)). apply in_map. assumption.
+Qed.
+
+(* the whole "for match in matches" loop *)
+Lemma renames_ok : forall (proc : P -> Prop) p peps_p, In (p, peps_p) L -> proc p ->
+  forall rest g pm,
+  core proc g -> no_founder p g -> pm_inv g pm -> pm_nodup pm -> NoDup rest ->
+  (forall m, In m rest -> exists S, In (m, S) g /\ incl peps_p S /\ ~ In p m) ->
+  exists g' pm', gr_renames P peqb p (g, pm) rest = Ok (g', pm') /\
+    core proc g' /\ no_founder p g' /\ pm_inv g' pm' /\ pm_nodup pm' /\
+    (forall n S, In (n, S) g' ->
+       (In (n, S) g /\ ~ In n rest) \/ (exists m, In m rest /\ In (m, S) g /\ n = m ++ [p])) /\
+    (forall n S, In (n, S) g ->
+       (~ In n rest -> In (n, S) g') /\ (In n rest -> In (n ++ [p], S) g')).
+Proof.
+  intros proc p peps_p HpL Hproc rest.
+  induction rest as [|m r IH]; intros g pm Hc Hnf Hinv Hnd Hndr Hrest.
+  - exists g, pm. split; [reflexivity|].
+    split; [assumption|]. split; [assumption|]. split; [assumption|]. split; [assumption|].
+    split.
+    + intros n S H. left. split; [assumption|intros []].
+    + intros n S H. split; [intros _; assumption|intros []].
+  - inversion Hndr as [|? ? Hmr Hndr']; subst.
+    destruct (Hrest m (or_introl eq_refl)) as [S [HinS [Hincl Hpm]]].
+    destruct (rename_ok proc p peps_p g pm m S HpL Hc Hproc Hnf Hinv Hnd HinS Hincl Hpm)
+      as [g0 [pm1 [Hrun [Hperm [Hc1 [Hnf1 [Hinv1 Hnd1]]]]]]].
+    set (g1 := g0 ++ [(m ++ [p], S)]) in *.
+    assert (Hg : forall n S0, In (n, S0) g <-> (n = m /\ S0 = S) \/ In (n, S0) g0).
+    { intros n S0. split.
+      - intros H. apply (Permutation_in _ Hperm) in H.
+        destruct H as [H|H]; [left; split; congruence|right; assumption].
+      - intros [[E1 E2]|H]; [subst; assumption|].
+        eapply Permutation_in; [apply Permutation_sym; exact Hperm|right; assumption]. }
+    assert (Hg1 : forall n S0, In (n, S0) g1 <-> In (n, S0) g0 \/ (n = m ++ [p] /\ S0 = S)).
+    { intros n S0. unfold g1. rewrite in_app_iff. simpl. split.
+      - intros [H|[H|[]]]; [left; assumption|right; split; congruence].
+      - intros [H|[E1 E2]]; [left; assumption|right; left; congruence]. }
+    assert (Hnotin := perm_key_notin proc g m S g0 Hc Hperm).
+    assert (Hrp : forall m', In m' r -> ~ In p m').
+    { intros m' Hm'. destruct (Hrest m' (or_intror Hm')) as [S' [_ [_ H]]]. exact H. }
+    assert (Hnwr : ~ In (m ++ [p]) r).
+    { intros H. apply (Hrp _ H). apply in_app_iff. right. left. reflexivity. }
+    destruct (IH g1 pm1 Hc1 Hnf1 Hinv1 Hnd1 Hndr') as [g' [pm' [Hrun' [Hc' [Hnf' [Hinv' [Hnd' [R1 R2]]]]]]]].
+    { intros m' Hm'. destruct (Hrest m' (or_intror Hm')) as [S' [HinS' [Hincl' Hpm']]].
+      exists S'. split; [|split; assumption]. apply Hg1. left.
+      apply Hg in HinS'. destruct HinS' as [[E _]|H]; [subst; contradiction|assumption]. }
+    exists g', pm'. split.
+    { simpl. rewrite Hrun. exact Hrun'. }
+    split; [assumption|]. split; [assumption|]. split; [assumption|]. split; [assumption|].
+    split; [|intros n S0 H; split].
+    + intros n S0 Hin. destruct (R1 n S0 Hin) as [[Hin1 Hnr]|[m' [Hm' [Hin1 En]]]].
+      * apply Hg1 in Hin1. destruct Hin1 as [Hin0|[En ES]].
+        -- left. split; [apply Hg; right; assumption|].
+           intros [E|H]; [subst n; exact (Hnotin S0 Hin0)|contradiction].
+        -- right. exists m. subst. split; [left; reflexivity|split; [assumption|reflexivity]].
+      * apply Hg1 in Hin1. destruct Hin1 as [Hin0|[Em' ES]].
+        -- right. exists m'. split; [right; assumption|split; [apply Hg; right; assumption|assumption]].
+        -- exfalso. subst m'. contradiction.
+    + intros Hn. assert (Hnm : n <> m) by (intros E; apply Hn; left; congruence).
+      apply Hg in H. destruct H as [[E _]|Hin0]; [contradiction|].
+      apply (R2 n S0); [apply Hg1; left; assumption|]. intros Hr. apply Hn. right. assumption.
+    + intros [E|Hr].
+      * subst n. apply Hg in H. destruct H as [[_ ES]|Hin0]; [|exfalso; exact (Hnotin S0 Hin0)].
+        subst S0. apply (R2 (m ++ [p]) S); [apply Hg1; right; split; reflexivity|assumption].
+      * assert (Hnm : n <> m) by (intros E; subst; contradiction).
+        apply Hg in H. destruct H as [[E _]|Hin0]; [contradiction|].
+        apply (R2 n S0); [apply Hg1; left; assumption|assumption].
+Qed.
+
+Lemma core_mono : forall (proc proc' : P -> Prop) g,
+  (forall x, proc x -> proc' x) -> core proc g -> core proc' g.
+Proof.
+  intros proc proc' g Himp Hc. constructor.
+  - apply (c_founder _ _ Hc).
+  - apply (c_heads _ _ Hc).
+  - intros n S x Hin Hx. destruct (c_members _ _ Hc n S x Hin Hx) as [H1 H2]. split; [apply Himp; assumption|assumption].
+  - apply (c_anti _ _ Hc).
+  - apply (c_nodup _ _ Hc).
+Qed.
+
+(* the state between two iterations of the loop over proteins; [done] = proteins processed so far *)
+Record ginv (done : list (P * list nat)) (g : gr_groups P) (pm : gr_pmap P) : Prop := {
+  gi_core : core (fun x => In x (map fst done)) g;
+  gi_complete : forall n S x peps, In (n, S) g -> In (x, peps) done -> incl peps S -> In x n;
+  gi_cover : forall x peps, In (x, peps) done -> exists n S, In (n, S) g /\ In x n;
+  gi_pm : pm_inv g pm;
+  gi_nd : pm_nodup pm }.
+
+(* for a current group, the names recorded for a peptide tell membership of the peptide *)
+Lemma key_lookup : forall proc g pm m S pep, core proc g -> pm_inv g pm -> In (m, S) g ->
+  (In m (lookup pep pm) <-> In pep S).
+Proof.
+  intros proc g pm m S pep Hc Hinv HinS. rewrite (Hinv pep m). split.
+  - intros [[S0 [Hin0 Hpep]] | [p0 [peps0 [HL [Hx [Hpep Hcl]]]]]].
+    + rewrite (core_key_fun proc g m S S0 Hc HinS Hin0). assumption.
+    + exfalso. destruct (c_founder _ _ Hc m S HinS) as [f [ms [Em HfL]]].
+      rewrite Hx in Em. injection Em as E1 E2. subst f ms.
+      assert (E : S = peps0) by (eapply L_fun; eassumption). subst peps0.
+      apply (Hcl m S HinS); [rewrite Hx; left; reflexivity|assumption].
+  - intros H. left. exists S. split; assumption.
+Qed.
+
+Variable pi : P -> list (list P) -> list (list P).
+Hypothesis pi_perm : forall p l, Permutation l (pi p l).
+
+Lemma matches_ok : forall proc p peps g pm, core proc g -> pm_inv g pm -> pm_nodup pm -> peps <> [] ->
+  exists ms, gr_matches P peqb pi p peps g pm = Ok ms /\ NoDup ms /\
+    forall m, In m ms <-> exists S, In (m, S) g /\ incl peps S.
+Proof.
+  intros proc p peps g pm Hc Hinv Hnd Hne. destruct peps as [|pep0 rest]; [congruence|].
+  unfold gr_matches.
+  set (inter := filter (fun x => forallb (fun pp => memn x (lookup pp pm)) rest) (lookup pep0 pm)).
+  exists (filter (fun m => haskey m g) (pi p inter)). split; [reflexivity|].
+  assert (Hndi : NoDup inter) by (apply NoDup_filter; apply Hnd).
+  split.
+  - apply NoDup_filter. eapply Permutation_NoDup; [apply pi_perm|assumption].
+  - intros m. rewrite filter_In. rewrite haskey_spec.
+    assert (Hpi : In m (pi p inter) <-> In m inter).
+    { split; intros H.
+      - apply (Permutation_in _ (Permutation_sym (pi_perm p inter))). assumption.
+      - apply (Permutation_in _ (pi_perm p inter)). assumption. }
+    rewrite Hpi. unfold inter. rewrite filter_In. rewrite forallb_forall. split.
+    + intros [[H0 Hr] [S HinS]]. exists S. split; [assumption|].
+      intros pep [E|Hpep].
+      * subst pep. apply (key_lookup proc g pm m S pep0 Hc Hinv HinS). assumption.
+      * apply (key_lookup proc g pm m S pep Hc Hinv HinS). apply memn_spec. apply Hr. assumption.
+    + intros [S [HinS Hincl]]. split; [|exists S; assumption]. split.
+      * apply (key_lookup proc g pm m S pep0 Hc Hinv HinS). apply Hincl. left. reflexivity.
+      * intros pp Hpp. apply memn_spec. apply (key_lookup proc g pm m S pp Hc Hinv HinS).
+        apply Hincl. right. assumption.
+Qed.
+
+(* a protein that lies in no existing group founds a new one *)
+Lemma add_group_ok : forall done p peps g pm,
+  In (p, peps) L -> incl done L -> ~ In p (map fst done) ->
+  (forall y, In y done -> length peps <= length (snd y)) ->
+  ginv done g pm -> (forall m S, In (m, S) g -> ~ incl peps S) ->
+  ginv (done ++ [(p, peps)]) (g ++ [([p], peps)]) pm.
+Proof.
+  intros done p peps g pm HpL HdL Hpnd Hlen Hgi Hnomatch.
+  destruct Hgi as [Hc Hcomp Hcov Hinv Hnd].
+  assert (HinG' : forall n S, In (n, S) (g ++ [([p], peps)]) <-> In (n, S) g \/ (n = [p] /\ S = peps)).
+  { intros n S. rewrite in_app_iff. simpl. split.
+    - intros [H|[H|[]]]; [left; assumption|right; split; congruence].
+    - intros [H|[E1 E2]]; [left; assumption|right; left; congruence]. }
+  assert (Hproc' : forall x, In x (map fst done) -> In x (map fst (done ++ [(p, peps)]))).
+  { intros x H. rewrite map_app. apply in_app_iff. left. assumption. }
+  assert (Hpg : forall n S, In (n, S) g -> ~ In p n).
+  { intros n S Hin Hp. destruct (c_members _ _ Hc n S p Hin Hp) as [H _]. contradiction. }
+  (* a processed protein whose peptides lie inside [peps] would have produced a match *)
+  assert (Hsmall : forall x px, In (x, px) done -> ~ incl px peps).
+  { intros x px Hx Hsub.
+    assert (Hpx : NoDup px) by (eapply L_peps; apply HdL; exact Hx).
+    assert (Hrev : incl peps px).
+    { apply NoDup_length_incl; [assumption|apply (Hlen (x, px) Hx)|assumption]. }
+    destruct (Hcov x px Hx) as [n0 [S0 [Hin0 Hxn0]]].
+    destruct (c_members _ _ Hc n0 S0 x Hin0 Hxn0) as [_ [px' [HxL Hsub']]].
+    assert (E : px' = px) by (eapply L_fun; [exact HxL|apply HdL; exact Hx]). subst px'.
+    apply (Hnomatch n0 S0 Hin0). intros a Ha. apply Hsub'. apply Hrev. assumption. }
+  constructor.
+  - constructor.
+    + intros n S Hin. apply HinG' in Hin. destruct Hin as [Hin|[E1 E2]].
+      * apply (c_founder _ _ Hc). assumption.
+      * subst. exists p, []. split; [reflexivity|assumption].
+    + rewrite map_app. simpl. apply nodup_snoc; [apply (c_heads _ _ Hc)|].
+      intros H. apply in_map_iff in H. destruct H as [[n S] [Ek Hin]].
+      destruct (c_founder _ _ Hc n S Hin) as [f [ms [En _]]]. subst n.
+      unfold keyhd in Ek. simpl in Ek. injection Ek as Ef. subst f.
+      apply (Hpg _ _ Hin). left. reflexivity.
+    + intros n S x Hin Hx. apply HinG' in Hin. destruct Hin as [Hin|[E1 E2]].
+      * destruct (c_members _ _ Hc n S x Hin Hx) as [H1 H2]. split; [apply Hproc'; assumption|assumption].
+      * subst. destruct Hx as [Hx|[]]. subst x. split.
+        -- rewrite map_app. apply in_app_iff. right. left. reflexivity.
+        -- exists peps. split; [assumption|apply incl_refl].
+    + intros n S n' S' Hin Hin' Hsub. apply HinG' in Hin. apply HinG' in Hin'.
+      destruct Hin as [Hin|[E1 E2]]; destruct Hin' as [Hin'|[E1' E2']].
+      * apply (c_anti _ _ Hc n S n' S'); assumption.
+      * subst n' S'. exfalso.
+        destruct (c_founder _ _ Hc n S Hin) as [f [ms [En HfL]]].
+        destruct (c_members _ _ Hc n S f Hin) as [Hf _]; [subst n; left; reflexivity|].
+        apply in_map_iff in Hf. destruct Hf as [[f' pf] [Ef Hfd]]. simpl in Ef. subst f'.
+        assert (E : pf = S) by (eapply L_fun; [apply HdL; exact Hfd|exact HfL]). subst pf.
+        apply (Hsmall f S Hfd). assumption.
+      * subst n S. exfalso. apply (Hnomatch n' S' Hin'). assumption.
+      * congruence.
+    + intros n S Hin. apply HinG' in Hin. destruct Hin as [Hin|[E1 E2]].
+      * apply (c_nodup _ _ Hc n S). assumption.
+      * subst n. constructor; [intros []|constructor].
+  - intros n S x px Hin Hx Hsub. apply HinG' in Hin. apply in_app_iff in Hx.
+    destruct Hin as [Hin|[E1 E2]]; destruct Hx as [Hx|[Hx|[]]].
+    + apply (Hcomp n S x px); assumption.
+    + injection Hx as E1 E2. subst x px. exfalso. apply (Hnomatch n S Hin). assumption.
+    + subst n S. exfalso. apply (Hsmall x px Hx). assumption.
+    + injection Hx as E3 E4. subst x px n. left. reflexivity.
+  - intros x px Hx. apply in_app_iff in Hx. destruct Hx as [Hx|[Hx|[]]].
+    + destruct (Hcov x px Hx) as [n [S [Hin Hxn]]]. exists n, S. split; [apply HinG'; left; assumption|assumption].
+    + injection Hx as E1 E2. subst x px. exists [p], peps. split; [apply HinG'; right; auto|left; reflexivity].
+  - intros pep x. rewrite (Hinv pep x). split.
+    + intros [[S0 [Hin0 Hpep]] | [p0 [peps0 [HL [Hx [Hpep Hcl]]]]]].
+      * left. exists S0. split; [apply HinG'; left; assumption|assumption].
+      * destruct (peqb_spec p0 p) as [E|E].
+        -- subst p0. assert (E2 : peps0 = peps) by (eapply L_fun; eassumption). subst peps0.
+           left. exists peps. split; [apply HinG'; right; auto|assumption].
+        -- right. exists p0, peps0. repeat split; try assumption.
+           intros n S1 Hin1 Hp0n. apply HinG' in Hin1. destruct Hin1 as [Hin1|[En E1]].
+           ++ apply (Hcl n S1); assumption.
+           ++ subst n. destruct Hp0n as [Hp|[]]. congruence.
+    + intros [[S0 [Hin0 Hpep]] | [p0 [peps0 [HL [Hx [Hpep Hcl]]]]]].
+      * apply HinG' in Hin0. destruct Hin0 as [Hin0|[En E1]].
+        -- left. exists S0. split; assumption.
+        -- subst x S0. right. exists p, peps. repeat split; try assumption.
+           intros n S1 Hin1 Hpn. exfalso. apply (Hpg n S1 Hin1). assumption.
+      * right. exists p0, peps0. repeat split; try assumption.
+        intros n S1 Hin1 Hp0n. apply (Hcl n S1); [apply HinG'; left; assumption|assumption].
+  - assumption.
 Qed.
 
 End Inv.
